@@ -2,6 +2,7 @@ package rules
 
 import (
 	"go/types"
+	"strings"
 
 	"golang.org/x/tools/go/ssa"
 
@@ -117,4 +118,94 @@ func (c *Ctx) checkPropagation(rule string, fn *ssa.Function, m walk.Matcher, wh
 		}
 	})
 	return n
+}
+
+// checkModuleErrorDiscipline: in every fns member that returns an error, a module callee's error that a
+// branch found non-nil must not end in a nil error result ("tested, then dropped"), unless the site is
+// in the reviewed table (callee|function -> reason). Returns the number of call sites judged.
+func (c *Ctx) checkModuleErrorDiscipline(rule string, fns []*ssa.Function, reviewedSites map[string]string) int {
+	n := 0
+	for _, fn := range fns {
+		retIdx := errResultIndex(fn.Signature)
+		if retIdx < 0 || len(fn.Blocks) == 0 {
+			continue
+		}
+		has := false
+		for _, b := range fn.Blocks {
+			for _, in := range b.Instrs {
+				if call, ok := in.(*ssa.Call); ok && c.moduleFallible(&call.Call) != "" {
+					has = true
+				}
+			}
+		}
+		if !has {
+			continue
+		}
+		fn := fn
+		seen := map[ssa.Instruction]bool{}
+		c.WalkShallow(rule, fn, func(p *walk.Path) {
+			if _, ok := p.Exit.(*ssa.Return); !ok {
+				return
+			}
+			at := p.End()
+			ret, _ := p.ReturnDV(retIdx)
+			for _, cl := range p.Calls() {
+				name := c.moduleFallible(cl.C)
+				if name == "" {
+					continue
+				}
+				if _, ok := cl.In.(*ssa.Call); !ok {
+					continue
+				}
+				if !seen[cl.In] {
+					seen[cl.In] = true
+					n++
+					c.R.CallSites++
+				}
+				_, single, idx := callErrDV(p, cl)
+				ri := idx
+				if single {
+					ri = -1
+				}
+				isNil, known := p.ResultNil(cl.DV(), ri, at)
+				key := "site|" + fnKey(fn) + "|" + name
+				if !known || isNil || !DefinitelyNil(p, ret, at) {
+					c.ok(rule, key, cl.In, "no path on which this call's error is found non-nil ends in a nil error result")
+					continue
+				}
+				if why, ok := reviewedSites[name+"|"+fnKey(fn)]; ok {
+					c.ok(rule, key+"|reviewed", cl.In, "reviewed: "+why)
+					continue
+				}
+				c.bad(rule, key, cl.In, "the error of "+name+" is found non-nil and then dropped: "+prog.Name(fn)+" reports success on that path", p, at)
+			}
+		})
+	}
+	return n
+}
+
+// moduleFallible names a call whose callee is a module function or module interface method with an error result.
+func (c *Ctx) moduleFallible(cc *ssa.CallCommon) string {
+	if errResultIndex(cc.Signature()) < 0 {
+		return ""
+	}
+	if cc.IsInvoke() {
+		if pk := cc.Method.Pkg(); pk != nil && strings.HasPrefix(pk.Path(), prog.ModPath) {
+			return prog.Short(pk.Path()) + "." + recvName(cc.Method) + "." + cc.Method.Name()
+		}
+		return ""
+	}
+	if sc := cc.StaticCallee(); sc != nil && c.P.InModule(sc) {
+		return prog.Name(sc)
+	}
+	return ""
+}
+
+func recvName(m *types.Func) string {
+	if r := m.Type().(*types.Signature).Recv(); r != nil {
+		if n, ok := r.Type().(*types.Named); ok {
+			return n.Obj().Name()
+		}
+	}
+	return "?"
 }
